@@ -87,14 +87,28 @@ Definition dec_write (x : sx) : option jwrite :=
   | _ => None
   end.
 
+Definition dec_env (x : sx) : bytes * bytes :=
+  match x with SL [k; v] => (get_B k, get_B v) | _ => ([], []) end.
+
+Definition dec_job9 (t i g r c : sx) (outs ins ws env : list sx) : option job_req :=
+      if is_sym "job" t then
+        match all_some (map dec_member ins), all_some (map dec_write ws) with
+        | Some ms, Some wl =>
+            Some {| r_id := get_B i; r_genuine := get_N g; r_run := get_bool r; r_cwd := get_B c;
+                    r_outs := map get_B outs; r_inputs := ms; r_writes := wl; r_env := map dec_env env |}
+        | _, _ => None
+        end
+      else None.
+
 Definition dec_job (x : sx) : option job_req :=
   match x with
+  | SL [t; i; g; r; c; SL outs; SL ins; SL ws; SL env] => dec_job9 t i g r c outs ins ws env
   | SL [t; i; g; r; c; SL outs; SL ins; SL ws] =>
       if is_sym "job" t then
         match all_some (map dec_member ins), all_some (map dec_write ws) with
         | Some ms, Some wl =>
             Some {| r_id := get_B i; r_genuine := get_N g; r_run := get_bool r; r_cwd := get_B c;
-                    r_outs := map get_B outs; r_inputs := ms; r_writes := wl |}
+                    r_outs := map get_B outs; r_inputs := ms; r_writes := wl; r_env := [] |}
         | _, _ => None
         end
       else None
@@ -162,7 +176,20 @@ Definition enc_job (x : job_obs * server) : sx :=
        SL [sym "left"; SL (map SB (live (bld s)))];
        SL [sym "toolchains"; enc_toolchains s];
        SL [sym "cache"; enc_cache (cached s)];
-       SL [sym "escaped"; SL []] ].
+       SL [sym "escaped"; SL []];
+       (* how the launcher was started: its argument vector up to the command, the --setenv pairs, and the
+          differences between its environment and the server's (none) *)
+       SL (sym "launcher" ::
+           match o_target o with
+           | Some t =>
+               if o_head o =? 2 then []
+               else
+               let l := spawn_launcher [] (srv_build ++ t) (o_cwd o) (o_env o) (bs "job") [] in
+               [ SL (sym "argv" :: map SB (l_argv l));
+                 SL (sym "setenv" :: map (fun e => SL [SB (fst e); SB (snd e)]) (client_env (o_env o)));
+                 SL (sym "envdiff" :: map (fun e => SL [sym "set"; SB (fst e); SB (snd e)]) (l_env l)) ]
+           | None => []
+           end) ].
 
 Definition run_fs (x : sx) : sx :=
   match x with
@@ -190,6 +217,12 @@ Definition run_fs2 (x : sx) : sx :=
   | SL [c; SL ops] =>
       match all_some (map dec_op ops) with
       | Some os => SL (map enc_job (do_ops (server0 (get_N c)) 1 os))
+      | None => SL [sym "unmodelled"]
+      end
+  | SL [c; SL ops; f] =>
+      (* third element 1: the server's directories lie on an overlay, no overlay can be mounted on them *)
+      match all_some (map dec_op ops) with
+      | Some os => SL (map enc_job (do_ops (server1 (negb (get_N f =? 1)) (get_N c)) 1 os))
       | None => SL [sym "unmodelled"]
       end
   | _ => err "bad case"
